@@ -6,14 +6,14 @@ import json, os, re, shutil, subprocess, sys
 ROOT = os.path.dirname(os.path.dirname(os.path.abspath(__file__)))
 prop = sys.argv[1]
 checks = sys.argv[2:] or [prop]
-src = "/tmp/seed/%s.out" % prop
+src = os.environ.get("SEED_SRC", "/tmp/seed/%s.out" % prop)  # SEED_SRC=/tmp/seed2/Cxx.out SEED_TAG=r2- for a second round
 for k in sorted(os.listdir(src)):
     if os.environ.get("SEED_ONLY") and k not in os.environ["SEED_ONLY"].split(","):
         continue
     d = os.path.join(src, k)
     if not (os.path.isdir(d) and os.path.exists(os.path.join(d, "patch.diff"))):
         continue
-    name = "%s-%s" % (prop, k)
+    name = "%s-%s%s" % (prop, os.environ.get("SEED_TAG", ""), k)
     conf = subprocess.run([os.path.join(ROOT, "lib/seedconfirm.sh"), d], capture_output=True, text=True).stdout.strip()
     print("==", name, conf.splitlines()[0] if conf else "no output")
     if not conf.startswith("CONFIRMED"):
